@@ -57,7 +57,7 @@ def classify(v):
 
 def run(ck):
     hb = ck.build("h-blob")
-    ck.tlc_mc("MC_Formats", ck.cfg_with("MC_Formats.cfg"))
+    ck.tlc_mc("MC_Formats", ck.cfg_with("MC_Formats.cfg"), workers=1)
     cases, _ = ck.tlc_gen("Gen_Formats", ck.cfg_with("Gen_Formats.cfg"), "formats.ndjson", count_stats=False)
     s = ck.harness(hb, ["replay", "formats", cases, "--prop", ck.prop], "formats")
     ck.absorb(s, classify)
